@@ -36,6 +36,14 @@ SPECS = {
                + [{"entry": "vh_c17_slice", "label": "vh_c17_slice.r0.k%d" % k, "fix": {"rank": 0, "kind#0": k}} for k in range(5)]
                + [{"entry": "vh_c17_slice", "label": "vh_c17_slice.r1.f%d.k%d" % (f, k), "fix": {"rank": 1, "focus": f, "n": 1, "kind#%d" % f: k, "kind#%d" % (1 - f): [1, 3, 4, 0, 1][k]}, "tiers": ["quick"]} for f in range(2) for k in range(5)]
                + [{"entry": "vh_c17_slice", "label": "vh_c17_slice.r1.f%d.k%d.o%d" % (f, k, o), "fix": {"rank": 1, "focus": f, "kind#%d" % f: k, "kind#%d" % (1 - f): o}, "tiers": ["thorough"]} for f in range(2) for k in range(5) for o in range(5)]}]},
+ "C19": {
+  "explanation": "Full stack on the HDF5 model: File::validate / valid::validate(...) over files whose entities breach the documented rules in every combination the harness can build - descriptor count vs. rank, tick / label / data-frame row counts vs. data length, tick order and sampling interval (symbolic doubles, written through the back-end interface as another writer of the format would), tag and multi-tag units vs. the units of the referenced dimensions, multi-tag without positions, feature without data, and the soft rules (array unit, calibration halves, offset without unit, property values without unit). Oracle: hard and soft breach sets computed from the construction; no hard breach => no error; every breaching entity has an error carrying its id; soft breaches never produce errors.",
+  "bounds": {"array": "rank 1..2 (extents 3, 3x2), rank-1..rank+1 descriptors of 4 kinds, counts off by -1/0/+1, symbolic ticks and interval", "tags": "0..2 tag units from 4 candidates x 3 dimension units x tag/multi-tag x 3 extras"},
+  "outside": ["unit grammar itself (modelled by a hand-written matcher)", "rank 3", "sources / sections beyond name/type/id rules", "more than one reference per tag"],
+  "assumptions": ["libhdf5 replaced by h5model", "unit grammar (boost::regex) replaced by a hand-written matcher of the same expressions"],
+  "harnesses": [{"file": "C19_validate.cpp", "entries": [{"entry": "vh_c19_conforming"}]
+        + [{"entry": "vh_c19_array", "label": "vh_c19_array.r%d.n%d.k%d" % (r, n, k), "fix": {"rank": r, "ndims": n, "kind#0": k}} for r in range(2) for n in range(3) for k in range(4) if not (r == 0 and n == 0 and k > 0)]
+        + [{"entry": "vh_c19_tags", "label": "vh_c19_tags.m%d.n%d.d%d" % (m, n, u), "fix": {"multi": m, "ntagunits": n, "dimunit#0": u}} for m in range(2) for n in range(3) for u in range(3)]}]},
  "C01": {
   "explanation": "Full stack on the HDF5 model for 10 numeric element types plus Bool and String: bounded histories of hyperslab writes (offset/count inside, touching and crossing the edge), appends along each axis, extent changes (grow/shrink) and sub-region reads with symbolic element values, compared with a dense reference array after every step and after reopen; reads as other numeric types; calibration polynomial/origin in the exact regime (integer-valued doubles) with raw reads unaffected; kernel checks of applyPolynomial (arbitrary doubles, order-independent facts) and guessChunking.",
   "bounds": {"quick": {"history_steps": 2, "rank": "1..2", "extent": "<= 3 per axis (4 after append)", "values": "symbolic, full range of the type", "polynomial": "degree <= 2, |coef| < 1024, |x|,|origin| < 256"},
